@@ -14,9 +14,10 @@
     [ResourceController::try_reserve].  ProofsInv.v: the structural invariant [Inv] (= [InvL] with an
     empty list of leaked slots) and the queue bound [QInv]; ProofsProps.v: [gone s k] = the slot of [k] has been freed since [k] was handed
     out. *)
-From Coq Require Import Arith List Bool Permutation.
+From Coq Require Import Arith List Bool Permutation ZArith.
 From KV Require Import Base.Outcome C08.Model C08.ProofsBase C08.ProofsInv C08.ProofsRun C08.ProofsProps
   C08.ProofsFail.
+From KV Require C08.Run C08.ProofsBusy.
 Import ListNotations.
 
 (** For every capacity, both storage variants and EVERY schedule: no step panics — "unused resource
@@ -304,3 +305,28 @@ Theorem abandoned_owner_parks_payloads :
                  (map snd (st_newq s2) ++ slot_payloads (aslots (st_ar s2))
                     ++ (st_unused s2 ++ infl (st_inflight s2)) ++ map fst (st_destroyed s2)).
 Proof. exact abandoned_owner_parks_payloads_proof. Qed.
+
+(** What a resource is DOING plays no part in its life cycle.  [OBusy p what] (Run.v) = resource [p] is given
+    something to do through its handle (a tweener's [set] with a tween that takes a minute, or one that
+    waits for a clock time that never comes; a track's fade-out; a clock's / listener's / LFO's parameter
+    tween).  In the function the implementation is compared with ([Run.run_ops]: keys, counts, limit
+    errors, what every id resolves to at every callback, destructions and their thread) a history and the
+    same history with every [OBusy] erased have the same observables, from ANY state and under ANY mask:
+    the removal test is the flag set by the handle's [Drop] alone, so [prompt_removal] and
+    [capacity_exact] hold for a resource in the middle of a tween exactly as for an idle one
+    (seeded/C08-dropped-tweener-waits-for-its-tween is an implementation for which they do not). *)
+Theorem busy_is_no_step :
+  forall (cf : cfg) (ops : list C08.Run.op) (mask : Z) (s : state),
+    C08.Run.run_ops cf mask ops s
+    = C08.Run.run_ops cf mask (filter (fun o => negb (C08.ProofsBusy.is_busy o)) ops) s.
+Proof. exact C08.ProofsBusy.busy_is_no_step_proof. Qed.
+
+(** Non-vacuity, and the shape of the seeded demo on a storage of capacity 1 (mask: id, count, resolution,
+    capacity): create, pick-up, a 60 s tween, a callback, the handle is dropped, ONE callback — the id
+    resolves to nothing and the count is 0 —, and the next creation gets the slot with a new generation. *)
+Theorem example_busy :
+  C08.Run.run (C08.Run.CHist true false 1 227 C08.ProofsBusy.ex_busy_ops)
+  = C08.Run.run (C08.Run.CHist true false 1 227 (C08.ProofsBusy.erase_busy C08.ProofsBusy.ex_busy_ops)) /\
+  C08.Run.run (C08.Run.CHist true false 1 227 C08.ProofsBusy.ex_busy_ops)
+  = [1; 0; 0; 0; 1; 0; 1; 1; 0; 1; 1; 1; 0; 0; 0; 0; 0; 1; 1]%Z.
+Proof. exact C08.ProofsBusy.ex_busy_proof. Qed.
